@@ -499,6 +499,11 @@ def gen_case(rng, C, idx, enc):
               initial_on_grid=True, fd_j1939_exclusive=True, n_frames=(1, 5), n_ecus=(2, 5),
               senders=not (ft["no_senders"] and idx % 4 != 0))
     db = matgen.gen_matrix(rng, C, **kw)
+    for f in db.frames:
+        # envelope: DBC carries "extended multiplexing" only through SG_MUL_VAL_ / m<n>M, i.e. through a signal with a named
+        # multiplexer; a frame flagged is_complex_multiplexed without any multiplexed signal has no carrier for the flag
+        if f.is_complex_multiplexed and not any(s.muxer_for_signal is not None for s in f.signals):
+            f.is_complex_multiplexed = False
     decorate(rng, C, db, enc[3], enc[4], ft)
     return db, ft
 
@@ -689,7 +694,9 @@ def run(chk):
             chk.sample(dict(encoding=enc[0], classes=sorted(cl), dbc_head=b1[:400].decode("latin-1")))
         if db2 is not None:
             # the re-read matrix is itself DBC-expressible content whose original HAS the bookkeeping attributes: they count now
-            b3, _ = search_one(chk, F, db2, enc, "reloaded gen#%d" % idx)
+            b3, db3 = search_one(chk, F, db2, enc, "reloaded gen#%d" % idx)
+            if b3 is not None and db3 is not None and idx % 3 == 0:
+                tie_inputs.append((db2, enc, b3, db3))
             chk.case(("reload", hash(b3)), len(cl) >= 3)
             chk.count("reloaded-original")
         if b1 is not None and db2 is not None:
@@ -701,8 +708,7 @@ def run(chk):
     if not ok:
         chk.ties["correspondence"] = "not run (build failed)"
         return
-    import p_c05_tie
-    p_c05_tie.run_tie(chk, C, F, tie_inputs)
+    run_tie(chk, C, F, tie_inputs)
 
 
 REQUIRED_CLASSES = [
@@ -716,3 +722,338 @@ REQUIRED_CLASSES = [
     "signal-groups", "cycle-time", "order:motorola", "encoding:utf-8", "encoding:latin-1", "senders:none", "receivers:none",
     "number:exponent", "number:negative-offset", "id:zero",
 ]
+
+
+# ---------------------------------------------------------------------------------------------------------------------
+# TIE: model/FmtDbc.v (cmd 501-521) against the real writer (through fmt_tok_dbc) and the real reader
+def codes(t):
+    return [ord(c) for c in t]
+
+
+def num_pair(x):
+    """value-canonical (coefficient, exponent) of a Decimal / numeric text"""
+    d = x if isinstance(x, D) else D(str(x))
+    if d == 0:
+        return [0, 0]
+    sign, digits, exp = d.normalize().as_tuple()
+    c = int("".join(map(str, digits)))
+    return [-c if sign else c, exp]
+
+
+def role_pair(mux_val, multiplexor):
+    if mux_val is None:
+        return [1, 0] if multiplexor else [0, 0]
+    return [3, int(mux_val)] if multiplexor else [2, int(mux_val)]
+
+
+def token_role(tok):
+    """independent reading of the multiplex token"""
+    if tok == "":
+        return [0, 0]
+    if tok == "M":
+        return [1, 0]
+    if tok.endswith("M"):
+        return [3, int(tok[1:-1])]
+    return [2, int(tok[1:])]
+
+
+def sig_role(s):
+    return role_pair(s.mux_val, s.multiplex == "Multiplexor")
+
+
+FREE_NAME = "VECTOR__INDEPENDENT_SIG_MSG"
+
+
+def written_frames(db):
+    """(name, id, ext, size, transmitters, signals) in the order dump writes them; free signals last in their pseudo frame"""
+    out = [(f.name, f.arbitration_id.id, bool(f.arbitration_id.extended), f.size, list(f.transmitters), list(f.signals)) for f in db.frames]
+    if db.signals:
+        out.append((FREE_NAME, 0x40000000, True, 0, [], list(db.signals)))
+    return out
+
+
+def read_frames_view(db2):
+    """frames of a re-read matrix in file order (the model keeps the pseudo frame of free signals as frame (0, extended))"""
+    out = [(f.name, f.arbitration_id.id, bool(f.arbitration_id.extended), f.size, list(f.transmitters), list(f.signals)) for f in db2.frames]
+    if db2.signals:
+        out.append((FREE_NAME, 0, True, 0, [], list(db2.signals)))
+    return out
+
+
+def view_groups(ecus, vtabs, frames):
+    """core-subset view of a matrix as the integer groups of model/Run_C05.v (names cut to 32 characters: the core subset has no
+    long names, mechanism 5 covers them)"""
+    g = [[10] + codes(n[:32]) for n in ecus]
+    for name in sorted(vtabs):
+        g.append([11] + codes(name))
+        for k, v in vtabs[name].items():
+            g.append([12, int(k)] + codes(v))
+    for name, fid, ext, size, txs, sigs in frames:
+        g.append([20, fid, int(ext), size])
+        g.append([21] + codes(name[:32]))
+        for t in txs:
+            g.append([22] + codes(t[:32]))
+        for s in sigs:
+            g.append([30, int(s.start_bit), int(s.size), int(bool(s.is_little_endian)), int(bool(s.is_signed)), int(bool(s.is_float))] + sig_role(s)
+                     + num_pair(s.factor) + num_pair(s.offset) + num_pair(s.min) + num_pair(s.max))
+            g.append([31] + codes(s.name[:32]))
+            g.append([32] + codes(s.unit or ""))
+            for r in s.receivers:
+                g.append([33] + codes(r[:32]))
+            for k, v in sorted(s.values.items()):
+                g.append([34, int(k)] + codes(v))
+    return g
+
+
+def stmt_groups(stmts):
+    """core statements of a tokenized DBC text as integer groups"""
+    g = []
+    for st in stmts:
+        k = st["k"]
+        if k == "BU_":
+            g.append([100])
+            g += [[101] + codes(n[:32]) for n in st["names"]]
+        elif k == "VAL_TABLE_":
+            g.append([110] + codes(st["name"]))
+            g += [[111, key] + codes(lab) for key, lab in st["rows"]]
+        elif k == "BO_":
+            g += [[120, st["cid"], st["size"]], [121] + codes(st["name"][:32]), [122] + codes(st["tx"][:32])]
+        elif k == "SG_":
+            g.append([130, st["start"], st["size"], int(st["le"]), int(st["signed"])] + token_role(st["mux"]) + num_pair(st["factor"])
+                     + num_pair(st["offset"]) + num_pair(st["min"]) + num_pair(st["max"]))
+            g += [[131] + codes(st["name"][:32]), [132] + codes(st["unit"])] + [[133] + codes(r[:32]) for r in st["receivers"]]
+        elif k == "BO_TX_BU_":
+            g.append([140, st["cid"]])
+            g += [[141] + codes(t[:32]) for t in st["txs"]]
+        elif k == "VAL_" and st["cid"] is not None:
+            g += [[150, st["cid"]], [151] + codes(st["sig"][:32])] + [[152, key] + codes(lab) for key, lab in st["rows"]]
+        elif k == "SIG_VALTYPE_":
+            g += [[160, st["cid"], st["type"]], [161] + codes(st["sig"][:32])]
+    return g
+
+
+def enum_values(definition):
+    """value list of an ENUM definition text (own splitter: values are quoted, separated by commas)"""
+    body = definition[4:].strip()
+    vals, cur, inq = [], "", False
+    for c in body:
+        if c == '"':
+            inq = not inq
+            if not inq:
+                vals.append(cur)
+                cur = ""
+        elif inq:
+            cur += c
+    return vals
+
+
+def scaled(decs):
+    """integers of several decimals over a common power of ten"""
+    ds = [x if isinstance(x, D) else D(str(x)) for x in decs]
+    e = min([d.as_tuple().exponent for d in ds] + [0])
+    out = []
+    for d in ds:
+        v = d.scaleb(-e)
+        assert v == v.to_integral_value()
+        out.append(int(v))
+    return out, e
+
+
+def run_tie(chk, C, F, tie_inputs):
+    rng = chk.rng
+    thorough = chk.tier == "thorough"
+    lines, expect, info = [], [], []
+    suites = {}
+
+    def add(suite, cmd, groups, exp, inf):
+        lines.append(core.fmt_case(cmd, groups))
+        expect.append(exp)
+        info.append((suite, inf))
+        suites[suite] = suites.get(suite, 0) + 1
+
+    limit = 350 if not thorough else 3000
+    structure_mismatch = 0
+    for db, enc, b1, db2 in tie_inputs[:limit]:
+        text = b1.decode(enc[1].get("dbcExportEncoding", "iso-8859-1"), "replace")
+        try:
+            stmts = fmt_tok_dbc(text)
+        except Exception as e:
+            chk.tie_break("tokenizer", dict(error=repr(e)[:200], dbc=text[:1500]), "tokenized", "tokenizer failed")
+            continue
+        unknown = [st for st in stmts if st["k"] == "?"]
+        if unknown:
+            chk.tie_break("tokenizer", dict(line=unknown[0]["text"][:200]), "known statement", "unknown statement in dump output")
+            continue
+        wf = written_frames(db)
+        rf = read_frames_view(db2)
+        bos = [st for st in stmts if st["k"] == "BO_"]
+        if len(bos) != len(wf) or len(rf) != len(wf):
+            structure_mismatch += 1
+            continue
+        cid_name = {st["cid"]: st["name"] for st in bos}
+        sg_by_cid = {}
+        for st in stmts:
+            if st["k"] == "SG_":
+                sg_by_cid.setdefault(st["frame"], []).append(st)
+        enum_defs = {(st["cls"], st["name"]): enum_values(st["definition"]) for st in stmts
+                     if st["k"] == "BA_DEF_" and st["definition"].startswith("ENUM")}
+        start_attr = {(st["cid"], st["sig"]): st["value"] for st in stmts
+                      if st["k"] == "BA_" and st["cls"] == "SG_" and st["name"] == "GenSigStartValue"}
+        gss = db.signal_defines.get("GenSigStartValue")
+        gss_default = gss is not None and gss.defaultValue is not None
+        ok_structure = True
+        for (name, fid, ext, size, txs, sigs), bo, (name2, fid2, ext2, size2, txs2, sigs2) in zip(wf, bos, rf):
+            cid = bo["cid"]
+            add("id", 503, [[fid, int(ext)]], [[cid]], dict(frame=name))
+            try:
+                a = C.ArbitrationId.from_compound_integer(cid)
+                exp = [[1, a.id, int(bool(a.extended))]]
+            except Exception:
+                exp = [[0]]
+            add("id", 504, [[cid]], exp, dict(cid=cid))
+            sgs = sg_by_cid.get(cid, [])
+            if len(sgs) != len(sigs) or len(sigs2) != len(sigs):
+                ok_structure = False
+                break
+            for s, st, s2 in zip(sigs, sgs, sigs2):
+                inf = dict(frame=name, signal=s.name)
+                add("startbit", 501, [[int(bool(s.is_little_endian)), int(s.size), int(s.start_bit)]], [[st["start"]]], inf)
+                add("startbit", 502, [[int(st["le"]), st["size"], st["start"]]], [[1, int(s2.start_bit)]], inf)
+                add("mux", 505, [[-1 if s.mux_val is None else int(s.mux_val), int(s.multiplex == "Multiplexor")]], [[1] + codes(st["mux"])], inf)
+                add("mux", 506, [codes(st["mux"])], [[1] + sig_role(s2)], inf)
+                # GenSigStartValue (integer signals, definition without default)
+                if not s.is_float and not gss_default:
+                    try:
+                        (I, O, Fa, MIN, MAX), e = scaled([s.initial_value, s.offset, s.factor, s.min, s.max])
+                        (I2,), e2 = scaled([s2.initial_value])
+                        own = s.attributes.get("GenSigStartValue")
+                        own_i = None if own is None else int(own)
+                        tok = start_attr.get((cid, st["name"]))
+                        tok_i = None if tok is None else int(tok)
+                        big = max(abs(I - O), abs(MIN - O), abs(O), abs((tok_i or 0) * Fa), abs((tok_i or 0) * Fa + O), abs(I2))
+                        if big >= 10 ** 28:
+                            raise ValueError("beyond the 28 digits Decimal keeps exactly: outside the model's stated scope")
+                    except (AssertionError, ValueError):
+                        chk.count("tie:start-value-skipped")
+                    else:
+                        add("start-value", 511, [[int(own_i is not None), own_i or 0, I, O, Fa, MIN, MAX]],
+                            [[0]] if tok_i is None else [[1, tok_i]], dict(inf, initial=str(s.initial_value), offset=str(s.offset), factor=str(s.factor)))
+                        want = D(s2.initial_value).scaleb(-e)
+                        if want == want.to_integral_value():
+                            add("start-value", 512, [[int(tok_i is not None), tok_i or 0, O, Fa, MIN, MAX]], [[int(want)]], inf)
+            # long names of the signals of this frame
+            if any(len(s.name) > 32 for s in sigs) or rng.random() < 0.05:
+                shorts = [st["name"] for st in sgs]
+                attrs = [(st["sig"], _unq(st["value"])) for st in stmts if st["k"] == "BA_" and st["cls"] == "SG_"
+                         and st["name"] == "SystemSignalLongSymbol" and st["cid"] == cid]
+                add("long-names", 507, [codes(s.name) for s in sigs],
+                    [codes(x) for x in shorts] + [[-1]] + [codes(y) for kv in attrs for y in kv], dict(frame=name, scope="signals"))
+                add("long-names", 508, [codes(x) for x in shorts] + [[-1]] + [codes(y) for kv in attrs for y in kv],
+                    [codes(s2.name) for s2 in sigs2], dict(frame=name, scope="signals"))
+        if not ok_structure:
+            structure_mismatch += 1
+            continue
+        # long names of frames and ECUs
+        shorts = [bo["name"] for bo in bos]
+        attrs = [(cid_name.get(st["cid"], "?"), _unq(st["value"])) for st in stmts if st["k"] == "BA_" and st["cls"] == "BO_"
+                 and st["name"] == "SystemMessageLongSymbol"]
+        add("long-names", 507, [codes(x[0]) for x in wf], [codes(x) for x in shorts] + [[-1]] + [codes(y) for kv in attrs for y in kv], dict(scope="frames"))
+        add("long-names", 508, [codes(x) for x in shorts] + [[-1]] + [codes(y) for kv in attrs for y in kv], [codes(x[0]) for x in rf], dict(scope="frames"))
+        bu = [st for st in stmts if st["k"] == "BU_"]
+        if bu and len(db2.ecus) == len(db.ecus):
+            shorts = bu[0]["names"]
+            attrs = [(st["ecu"], _unq(st["value"])) for st in stmts if st["k"] == "BA_" and st["cls"] == "BU_" and st["name"] == "SystemNodeLongSymbol"]
+            add("long-names", 507, [codes(e.name) for e in db.ecus], [codes(x) for x in shorts] + [[-1]] + [codes(y) for kv in attrs for y in kv], dict(scope="ecus"))
+            add("long-names", 508, [codes(x) for x in shorts] + [[-1]] + [codes(y) for kv in attrs for y in kv], [codes(e.name) for e in db2.ecus], dict(scope="ecus"))
+        # ENUM keys
+        frames_by_cid = {bo["cid"]: (w, r) for w, bo, r in zip(wf, bos, rf)}
+        for st in stmts:
+            if st["k"] != "BA_" or (st["cls"], st["name"]) not in enum_defs or st["cls"] not in ("BO_", "SG_", "BU_"):
+                continue
+            vals = enum_defs[(st["cls"], st["name"])]
+            orig = new = None
+            if st["cls"] == "BU_":
+                for e, e2 in zip(db.ecus, db2.ecus):
+                    if e.name[:32] == st["ecu"]:
+                        orig, new = e.attributes.get(st["name"]), e2.attributes.get(st["name"])
+            elif st["cid"] in frames_by_cid:
+                w, r = frames_by_cid[st["cid"]]
+                if st["cls"] == "BO_":
+                    fo = [f for f in db.frames if f.name == w[0]]
+                    fn = [f for f in db2.frames if f.name == r[0]]
+                    if fo and fn:
+                        orig, new = fo[0].attributes.get(st["name"]), fn[0].attributes.get(st["name"])
+                else:
+                    for s, s2 in zip(w[5], r[5]):
+                        if s.name[:32] == st["sig"]:
+                            orig, new = s.attributes.get(st["name"]), s2.attributes.get(st["name"])
+            inf = dict(attribute=st["name"], cls=st["cls"], key=st["value"])
+            if orig is not None:
+                add("enum", 509, [codes(orig)] + [codes(v) for v in vals], [[1] + codes(st["value"])], inf)
+            if new is not None:
+                add("enum", 510, [codes(st["value"])] + [codes(v) for v in vals], [[1] + codes(new)], inf)
+        # decimal integer text of the identifiers
+        for bo in bos[:2]:
+            add("int-text", 513, [[bo["cid"]]], [[1] + codes(str(bo["cid"]))], dict(cid=bo["cid"]))
+            add("int-text", 514, [codes(str(bo["cid"]))], [[1, bo["cid"]]], dict(cid=bo["cid"]))
+        # statement level, core subset: W (model writer = tokenized real dump) and R (model reader = real reader)
+        try:
+            vw = view_groups([e.name for e in db.ecus], db.value_tables, wf)
+            sg_ = stmt_groups(stmts)
+            _, so, logs = load_capture(F, b1, enc[2])
+            vr = view_groups([e.name for e in db2.ecus], db2.value_tables, rf) + [[-2, so.count("error with line no"), len(logs)]]
+        except Exception as e:
+            chk.tie_break("core-view", dict(error=repr(e)[:200]), "view", "view construction failed")
+            continue
+        add("core-write", 520, vw, sg_, dict(frames=[x[0] for x in wf]))
+        add("core-read", 521, sg_, vr, dict(frames=[x[0] for x in wf]))
+    # hand-made tokens and identifiers where writer output alone would leave branches of the model unvisited
+    for tok, exp in [("", [[1, 0, 0]]), ("M", [[1, 1, 0]]), ("m0", [[1, 2, 0]]), ("m12M", [[1, 3, 12]]), ("m", [[0]]), ("mM", [[0]]), ("mx", [[0]]),
+                     ("x7", [[1, 2, 7]]), ("m007", [[1, 2, 7]])]:
+        add("mux", 506, [codes(tok)], exp, dict(token=tok))
+    for c in [0, 1, 0x7FF, 0x800, 0x1FFFFFFF, 0x80000000, 0x80000001, 0x9FFFFFFF, 0xC0000000, 0xFFFFFFFF]:
+        try:
+            a = C.ArbitrationId.from_compound_integer(c)
+            exp = [[1, a.id, int(bool(a.extended))]]
+        except Exception:
+            exp = [[0]]
+        add("id", 504, [[c]], exp, dict(cid=c))
+    for z in [0, 7, 10, 99, 100, 4294967295, -1, -40, 12345678901234567890]:
+        add("int-text", 513, [[z]], [[1] + codes(str(z))], dict(z=z))
+        add("int-text", 514, [codes(str(z))], [[1, z]], dict(z=z))
+    for t in ["", "-", "12a", "٣"]:
+        add("int-text", 514, [codes(t)], [[0]], dict(text=t))
+    out = core.run_model(lines)
+    bad = {}
+    for (suite, inf), exp, o, ln in zip(info, expect, out, lines):
+        got = core.parse_out(o)
+        if got != exp:
+            bad[suite] = bad.get(suite, 0) + 1
+            if bad[suite] <= 3:
+                chk.tie_break(suite, dict(inf, case=ln[:300]), _first_diff(got, exp), "see model field")
+    chk.ties["correspondence"] = {"suite": "fmt_dbc (cmd 501-521): tokenized real dump + real reader vs model/FmtDbc.v", "cases": len(lines),
+                                  "per_suite": suites, "disagreements": sum(bad.values()), "disagreements_per_suite": bad,
+                                  "matrices": min(limit, len(tie_inputs)), "skipped_structure_mismatch": structure_mismatch}
+    if structure_mismatch > max(3, len(tie_inputs[:limit]) // 20):
+        chk.tie_break("structure", dict(n=structure_mismatch), "frames/signals of dump and matrix align", "too many matrices could not be aligned")
+    small = [i for i in range(len(lines)) if len(lines[i]) < 1500]
+    idx = rng.sample(small, min(300, len(small)))
+    shard = []
+    for i in idx:
+        c, groups = (lines[i].split(" ", 1) + [""])[:2]
+        shard.append((int(c, 16), core.parse_out(groups), expect[i]))
+    mm, log = core.coq_shard(shard, "c05")
+    chk.ties["vm_compute_shard"] = {"cases": len(shard), "mismatches": mm}
+    if mm is None:
+        chk.obligation_failures.append("in-Coq shard failed to evaluate")
+        chk.build_log = log[-3000:]
+    else:
+        for i in mm:
+            chk.tie_break("fmt_dbc-shard", shard[i][1], "vm_compute differs", shard[i][2])
+
+
+def _first_diff(got, exp):
+    for i, (a, b) in enumerate(zip(got, exp)):
+        if a != b:
+            return dict(group=i, model=a[:40], impl=b[:40])
+    return dict(model_groups=len(got), impl_groups=len(exp), model_tail=got[len(exp):][:3], impl_tail=exp[len(got):][:3])
